@@ -371,10 +371,12 @@ Qed.
 Record lay := mkLay { y_qs : list lq; y_rrs : list lrr }.
 
 Definition q_desc (q : lq) (a : aq) : Prop :=
-  nc_name (lq_name q) = aq_name a /\ nc_cp (lq_name q) = aq_exact a /\ lq_ty q = aq_ty a /\ lq_cl q = aq_cl a.
+  (nc_name (lq_name q) = aq_name a /\ nc_cp (lq_name q) = aq_exact a /\ lq_ty q = aq_ty a /\ lq_cl q = aq_cl a) /\
+  (aq_mode a = Disabled -> nc_sh (lq_name q) = None).
 Definition rr_desc2 (r : lrr) (a : arr) : Prop :=
   rr_desc r (ar_owner a) (ar_exact a) (ar_ty a) (ar_cl a) (ar_ttl a)
-          (component_types (ar_cl a) (ar_ty a)) (ar_rd a).
+          (component_types (ar_cl a) (ar_ty a)) (ar_rd a) /\
+  (ar_mode a = Disabled -> rr_plain r).
 
 (* physical part: questions tile [12, rr_start), records tile [rr_start, cursor); L is exactly the
    set of label starts of the name chunks of the layout *)
